@@ -45,6 +45,9 @@ def combos(tier):
                         # TLS <= 1.2: supported_groups also covers the curve of an ECDSA certificate (P-256 here)
                         glist = gname + ":P-256" if (key == "ec" and ver != "T13" and gname != "P-256") else gname
                         C.append(dict(base, group=glist, gid=gid if glist == gname else 0, sizes="10"))
+                if ver != "T13":
+                    # RFC 7507: a fallback retry (TLS_FALLBACK_SCSV) at the highest version the server enables is an ordinary handshake
+                    C.append(dict(base, scsv=1, sizes="10"))
                 if ver == "T13":
                     # HelloRetryRequest: the client's only key share is for a group the server does not take
                     if role == "server":
@@ -166,7 +169,7 @@ def run(tier, seed):
     known = runner.load_known(prop); known_hit = {}
     for ln in v["rejects"]:
         i, c = idx[ln]; d = json.loads(lines[ln - 1])
-        sig = {k: str(c.get(k, "")) for k in ("role", "ver", "oname", "key", "cauth", "resume", "group", "sigalgs", "pad", "early", "oname2", "maxfrag", "pskke", "leaf")}
+        sig = {k: str(c.get(k, "")) for k in ("role", "ver", "oname", "key", "cauth", "resume", "group", "sigalgs", "pad", "early", "oname2", "maxfrag", "pskke", "scsv", "leaf")}
         sig["obs"] = "done=%s odone=%s mres=%s ores=%s dataok=%s odataok=%s mver=%s ocipher=%s" % (d["done"], d["odone"], d["mres"], d["ores"], d["dataok"], d["odataok"], d["mver"], d["ocipher"]) + (" earlyok=%s oearly=%s" % (d.get("earlyok"), d.get("oearly")) if c.get("early") else "")
         k = runner.match_known(sig, known)
         if k:
